@@ -52,3 +52,21 @@ META.update({
         note=_GW_NOTE + " Timing is judged on the bubble's virtual clock with one poll interval of slack (goroutines runnable at the same instant are ordered by the Go scheduler).",
         technique="PBT over exchange prefixes on a virtual clock (testing/synctest), exhaustive over (variant, cut) pairs"),
 })
+CHECKS["C01"] = dict(parts=[part("client-publish-forwarded", "gw", "TestC01", 3000, 200_000)])
+CHECKS["C02"] = dict(parts=[part("broker-publish-resolvable", "gw", "TestC02", 3000, 200_000)])
+CHECKS["C03"] = dict(parts=[part("control-packets-one-to-one", "gw", "TestC03", 3000, 150_000)])
+CHECKS["C04"] = dict(parts=[part("topic-ids-unique", "gw", "TestC04", 2000, 50_000)])
+META.update({
+    "C01": dict(
+        text="Exploration: generated session histories (registrations, subscriptions of every form, broker grants/refusals) interleaved with client PUBLISH packets over all flag combinations, topic-ID types 0-3, known/unknown/shadowed IDs and boundary payload sizes; after every PUBLISH the broker byte stream is parsed by the independent MQTT parser and compared with what the client's topic ID denotes at that moment according to a model rebuilt from the trace (exactly one unchanged PUBLISH, or none when the ID denotes nothing).",
+        note=_GW_NOTE, technique="stateful PBT against a topic-knowledge reference model; differential parse of the broker stream"),
+    "C02": dict(
+        text="Exploration: generated histories with broker PUBLISH packets on short, predefined (own, '*'-only, shadowed), registered and brand-new names (also two at the same instant); the scripted client resolves every received PUBLISH using only what it accepted itself and the shared predefined configuration (reference lookup); name, payload, QoS and retain must match the broker's.",
+        note=_GW_NOTE + " Message-ID collisions between exchanges of opposite directions are excluded here by construction (they are C06's subject).", technique="stateful PBT; oracle = independent client-side resolution model"),
+    "C03": dict(
+        text="Exploration: generated SUBSCRIBE/UNSUBSCRIBE/PUBREL/PINGREQ/DISCONNECT traffic and broker acknowledgements with return codes drawn independently of the requests; per step exactly one translated packet with the same message ID, resolved filter, requested QoS, acceptance iff code <= 2, granted QoS and the expected topic ID.",
+        note=_GW_NOTE, technique="stateful PBT with a one-to-one translation model"),
+    "C04": dict(
+        text="Exploration: registration histories that run 2-3x past exhaustion of a topic-ID space scaled down to 1..N (N=2..12) with predefined IDs inside the range; a history invariant over all REGACK/SUBACK/REGISTER IDs: in range, never a visible predefined ID, id->name is a function that never changes, also after refusals. The thorough tier adds one run over the real 65534-ID range.",
+        note=_GW_NOTE + " The ID range is scaled through a verif-tagged hook that replaces only the upper bound of the session's own ID sequence.", technique="model-based stateful PBT with a history invariant; scaled-down ID space"),
+})
